@@ -22,6 +22,18 @@ func (c CalleeID) String() string {
 	return c.Pkg + "." + c.Name
 }
 
+// renamedTo: the name under which an unexported anchor function was found again after a
+// rename (see Prog.relocate); "" when it was not renamed.
+func renamedTo(w CalleeID) string {
+	if Current == nil || len(Current.RenamedName) == 0 {
+		return ""
+	}
+	if n, ok := Current.RenamedName[w.Pkg+"|"+w.Name]; ok {
+		return n
+	}
+	return ""
+}
+
 func relPkg(path string) string { return strings.TrimPrefix(path, ModPath+"/") }
 
 func namedName(t types.Type) string {
@@ -86,7 +98,7 @@ func IsCall(in ssa.Instruction, ids ...CalleeID) (*ssa.CallCommon, bool) {
 		return nil, false
 	}
 	for _, w := range ids {
-		if w.Name == id.Name && (w.Pkg == id.Pkg || w.Pkg == "*") && (w.Recv == id.Recv || w.Recv == "*") {
+		if (w.Name == id.Name || renamedTo(w) == id.Name) && (w.Pkg == id.Pkg || w.Pkg == "*") && (w.Recv == id.Recv || w.Recv == "*") {
 			return c, true
 		}
 	}
